@@ -83,6 +83,7 @@ type Obligation struct {
 	At     string // Bool term: control reaches the obligation point
 	Goal   string // Bool term to prove
 	Cover  bool   // must be satisfiable (vacuity guard) instead of valid
+	LongCover bool
 	Src    string
 	Result *SolveResult
 	script *strings.Builder
@@ -159,6 +160,12 @@ func (f *FnEnc) def(prefix, srt, term string) string {
 		return term
 	}
 	n := f.sym(prefix)
+	if strings.HasPrefix(srt, "(Array") {
+		// arrays are used in quantifier patterns: keep them uninterpreted constants
+		f.emit("(declare-fun %s () %s)", n, srt)
+		f.emit("(assert (= %s %s))", n, term)
+		return n
+	}
 	f.emit("(define-fun %s () %s %s)", n, srt, term)
 	return n
 }
